@@ -9,7 +9,7 @@ const CLASS_DOC: &str = "Cases are (program, initial state, history) triples: se
 
 pub fn run(args: &Args) -> Report {
   let replay = match (args.get("sub"), args.get_u64("case")) { (Some(m), Some(c)) => Some((m.to_string(), c)), _ => None };
-  let scale: u64 = (if args.tier == "thorough" { 40 } else { 1 }) * util::env_u64("PV_SCALE", 1);
+  let scale: u64 = (if args.tier == "thorough" { 600 } else { 20 }) * util::env_u64("PV_SCALE", 1);
   let t = args.tier.as_str();
   let s = args.seed;
   let mut r = match args.property.as_str() {
@@ -43,6 +43,25 @@ pub fn run(args: &Args) -> Report {
       r.floor("queue length >= 4 observed", r.get("max_bottom_up_queue") >= 4);
       r.floor("early cut-offs observed", r.get("bottom_up_early_cutoffs") > 10);
       r.floor("require of a scheduled task during execution observed", r.get("bottom_up_nested_require_scheduled_now") > 0);
+      r
+    }
+    "C05" => {
+      let mut r = wf::run_classes("C05", t, s, &[CP { name: "td-inj-hr", n: 3000 * scale }, CP { name: "td-inj-hw", n: 3000 * scale }, CP { name: "mixed-inj-hr", n: 2000 * scale }, CP { name: "mixed-inj-hw", n: 2000 * scale }, CP { name: "td-inj-any", n: 1000 * scale }], replay);
+      r.rule = format!("{}Classes: a read of a generated resource without requiring its generator, or a write to a resource that other tasks read, is injected (usually conditional on a source value, so that it becomes live in a later session) at a random task and position of a well-formed program. Monitors: (online, shadow-based) a read that returns while another task has a recorded write and the reader does not reach it over recorded or in-progress requires; a write function entered (or written_to returned) while a recorded reader does not reach the writer; a hidden-dependency abort after the write function already ran; final store structure after a returning build; (Ref-based) the from-scratch interpreter hits a hidden dependency while evaluating a root for which pie returned a value. non-trivial = a session aborted with a hidden-dependency diagnosis.", CLASS_DOC);
+      r.floor("hidden-dependency aborts observed", r.get("aborts_hidden-dependency") > 50);
+      r.floor("injected programs also ran without abort (legal side)", r.get("sessions") > r.get("aborts") * 2);
+      r
+    }
+    "C06" => {
+      let mut r = wf::run_classes("C06", t, s, &[CP { name: "td-inj-ov", n: 4000 * scale }, CP { name: "mixed-inj-ov", n: 3000 * scale }, CP { name: "td-inj-any", n: 1000 * scale }, CP { name: "mixed-mixed", n: 2000 * scale }], replay);
+      r.rule = format!("{}Classes: a second writer of a generated resource is injected (usually value-conditional) into a well-formed program; plus well-formed programs whose writers are re-executed top-down, bottom-up and through nested requires (must never be reported as overlap). Monitors: a write function entered or a written_to returned while the shadow holds a write of the resource by another task; an overlapping-write abort after the write function already ran; at most one writer per resource in the store after a returning build; Ref-based: overlap found from scratch but a value returned. non-trivial = a session aborted with an overlapping-write diagnosis.", CLASS_DOC);
+      r.floor("overlapping-write aborts observed", r.get("aborts_overlapping-write") > 50);
+      r
+    }
+    "C07" => {
+      let mut r = wf::run_classes("C07", t, s, &[CP { name: "td-inj-cy", n: 4000 * scale }, CP { name: "mixed-inj-cy", n: 3000 * scale }, CP { name: "td-inj-any", n: 1000 * scale }], replay);
+      r.rule = format!("{}Classes: a require of an earlier (or the same) task is injected (usually value-conditional) at a random task, giving cycles of length 1..n that appear in some session of the history. Monitors: a task starting to execute while it is on the task-side execution stack; a require returning a value for a task on the stack; the step bound (unbounded recursion); Ref-based: the from-scratch interpreter closes a cycle while evaluating a root for which pie returned a value. The store's rank invariant is checked through the dump at every quiescent point. non-trivial = a session aborted with a cyclic-dependency diagnosis.", CLASS_DOC);
+      r.floor("cycle aborts observed", r.get("aborts_cycle") > 50);
       r
     }
     "C08" => {
@@ -83,10 +102,24 @@ pub fn run(args: &Args) -> Report {
       r.floor("injected checker errors observed", r.nontrivial.len() > 100);
       r
     }
+    "C19" => {
+      let mut r = Report::new();
+      if replay.as_ref().map_or(true, |(c, _)| c != "crash-points") {
+        r = wf::run_classes("C19", t, s, &[CP { name: "td-inj-any", n: 3000 * scale }, CP { name: "td-inj-up", n: 2000 * scale }, CP { name: "mixed-inj-any", n: 1000 * scale }], replay.clone());
+      }
+      if replay.as_ref().map_or(true, |(c, _)| c == "crash-points") {
+        r.merge(wf::run_crash_points("C19", t, s, 300 * scale, replay.as_ref().map(|x| x.1)));
+      }
+      r.rule = format!("{}Fault classes: (a) crash-point enumeration - for a well-formed case and a chosen top-down session the whole run is repeated with a panic injected at EVERY task operation k of that session (any nesting depth); the caught abort is followed by the rest of the history on the same instance; because the programs have static roles, every later session must return exactly the from-scratch result and must not abort; (b) diagnosed violations and user panics injected value-conditionally (cycle, hidden dependency, overlapping write, task panic), followed by further sessions with the cause kept or removed. Monitor: a later build may return (then = Ref), or abort with a diagnosis (judged by C20's classifier), but any other panic - a message starting with BUG, or any panic raised inside /repo - is a violation; the store dump after the abort must equal the shadow including reserved and partial dependencies. evaluations = runs (one per crash point); non-trivial = run with re-execution after the abort.", CLASS_DOC);
+      r.floor("crash points enumerated", r.get("crash_points") > 500 || replay.is_some());
+      r.floor("aborts observed", r.get("aborts") > 500 || replay.is_some());
+      r
+    }
     "C20" => {
-      let mut r = wf::run_classes("C20", t, s, &[CP { name: "td-any", n: 3000 * scale }, CP { name: "pure-any", n: 3000 * scale }, CP { name: "mixed-any", n: 2000 * scale }], replay);
-      r.rule = format!("{}Well-formed class: no abort may ever happen. non-trivial = session with re-execution and reuse.", CLASS_DOC);
+      let mut r = wf::run_classes("C20", t, s, &[CP { name: "td-any", n: 2000 * scale }, CP { name: "pure-any", n: 2000 * scale }, CP { name: "mixed-any", n: 1000 * scale }, CP { name: "td-inj-any", n: 3000 * scale }, CP { name: "mixed-inj-any", n: 2000 * scale }], replay);
+      r.rule = format!("{}Well-formed classes: no abort may ever happen. Role-flip classes (value-conditional injected reads/writes/requires, so who writes, reads and requires what depends on the state): when pie aborts with a diagnosis, from-scratch builds of all known tasks in the current state (several evaluation orders) must hit the same kind of violation; otherwise the abort must be explained by the stale-edge classifier (finding K3: the other task named in the message was not executed in this session and, evaluated from scratch now, does not create that edge), else it is a violation. non-trivial = session with re-execution and reuse; aborts are counted per kind.", CLASS_DOC);
       r.floor("sessions ran", r.get("sessions") > 1000);
+      r.floor("aborts confirmed by the from-scratch build observed", r.get("aborts_confirmed_by_from_scratch_build") > 20);
       r
     }
     other => {
